@@ -399,7 +399,15 @@ func c04Concat(c *Ctx, m *runnerModel) {
 		if !ok || len(call.Args) != 1 {
 			return true
 		}
-		if name, on := methodCallOn(info, call, m.fLP); on && name == "ParseMarkup" {
+		isParse := false
+		if m.fLP != nil {
+			if name, on := methodCallOn(info, call, m.fLP); on && name == "ParseMarkup" {
+				isParse = true
+			}
+		} else if sel, ok := unparen(call.Fun).(*ast.SelectorExpr); ok && sel.Sel.Name == "ParseMarkup" {
+			isParse = true
+		}
+		if isParse {
 			got = exprStr(call.Args[0])
 			if inner, ok := unparen(call.Args[0]).(*ast.CallExpr); ok && len(inner.Args) == 0 {
 				if sel, ok := unparen(inner.Fun).(*ast.SelectorExpr); ok && sel.Sel.Name == "String" {
